@@ -1471,6 +1471,11 @@ static int cfg_parse_internal(cfg_t *cfg, int level, int force_state, cfg_opt_t 
 					break;
 				}
 
+				/* cfg_getopt() has reported an unknown name, but says
+				 * nothing about an empty one ("" where a name belongs) */
+				if (!cfg_yylval[0])
+					cfg_error(cfg, _("no such option '%s'"), cfg_yylval);
+
 				goto error;
 			}
 
